@@ -262,14 +262,16 @@ func ThrowOnContextCancel[T any]() func(Observable[T]) Observable[T] {
 
 			done := make(chan struct{})
 
-			go func() {
+			// The terminal sent from this goroutine unsubscribes the subscriber: a teardown that panics is
+			// re-raised here and must not take the process down.
+			go recoverUnhandledError(func() {
 				select {
 				case <-subscriberCtx.Done():
 					destination.ErrorWithContext(subscriberCtx, subscriberCtx.Err())
 				case <-done:
 					destination.CompleteWithContext(subscriberCtx)
 				}
-			}()
+			})
 
 			sub := source.SubscribeWithContext(
 				subscriberCtx,
